@@ -79,6 +79,9 @@ pub enum VAct {
     Collect { user: String },
     CollectVia { user: String },
     SetFees { idx: usize },
+    /// somebody bank-sends the vault coins of a look-alike denom (the vault's denom in upper case); no vault entry
+    /// point is involved, and nothing the vault does may depend on it
+    SendLookalike { amount: u64 },
 }
 
 pub struct VaultScn {
@@ -424,6 +427,11 @@ impl Scenario for VaultScn {
                 direct_loan(w, &h, &r.fees, r.first / 2, &[Step::Repay(RepayKind::Exact)]).unwrap_or_else(|e| panic!("pre loan {:?}", e));
             }
         }
+        if self.property == "C05" {
+            if let AssetInfo::NativeToken { denom } = &h.asset {
+                w.mint_native(MALLORY, 1_000_000_000, &denom.to_uppercase());
+            }
+        }
         let burned = vault_burned(w, &h);
         let g = VG { locked: w.cw20_balance(&h.lp, &h.vault), charged: vault_pending(w, &h, true), burned, supply0: info_supply(w, &h.asset) + burned };
         (h, g)
@@ -510,6 +518,13 @@ impl Scenario for VaultScn {
         v.push(VAct::Collect { user: MALLORY.to_string() });
         if c07 {
             v.push(VAct::CollectVia { user: BOB.to_string() });
+        }
+        if self.property == "C05" {
+            if let AssetInfo::NativeToken { denom } = &h.asset {
+                if w.native_balance(&h.vault, &denom.to_uppercase()) == 0 {
+                    v.push(VAct::SendLookalike { amount: 10_001 });
+                }
+            }
         }
         for i in 0..self.fee_alphabet.len() {
             v.push(VAct::SetFees { idx: i });
@@ -661,6 +676,12 @@ impl Scenario for VaultScn {
                         cx.count("collect:rejected");
                         cx.note(|| format!("rejected: {}", e.msg()));
                     }
+                }
+            }
+            VAct::SendLookalike { amount } => {
+                if let AssetInfo::NativeToken { denom } = &h.asset {
+                    let r = w.exec_cosmos(MALLORY, cosmwasm_std::BankMsg::Send { to_address: h.vault.clone(), amount: vec![coin(*amount as u128, &denom.to_uppercase())] }.into());
+                    cx.count(if r.is_ok() { "lookalike:sent" } else { "lookalike:failed" });
                 }
             }
             VAct::SetFees { idx } => {
